@@ -22,6 +22,8 @@ impl Rng {
     pub fn bytes(&mut self, n: usize) -> Vec<u8> {
         (0..n).map(|_| self.next() as u8).collect()
     }
+    pub fn bytes_pick(&mut self, lens: &[usize]) -> Vec<u8> { let n = self.pick(lens); self.bytes(n) }
+    pub fn bytes_below(&mut self, n: u64) -> Vec<u8> { let k = self.below(n) as usize; self.bytes(k) }
     pub fn chance(&mut self, num: u64, den: u64) -> bool {
         self.below(den) < num
     }
